@@ -305,11 +305,11 @@ M("C13", "gate-spelling-regression", "c2profile.lark", "    | \"VirtualProtectEx
 M("C13", "gate-consumer-upper", "c2profile.py", "            block._enable(option.lower(), True)", "            block._enable(option, True)", "C13.R2")
 M("C13", "executor-spelling-regression", "beacon.py", "        elif inject == InjectExecutor.NtQueueApcThread_s:\n            # Cobalt Strike spells this executor with a dash\n            ret.append(\"NtQueueApcThread-s\")\n", "", "C13.R3")
 M("C13", "executor-dropped-from-list", "c2profile.py", "                        \"NtQueueApcThread\",\n                        \"NtQueueApcThread-s\",\n                        \"RtlCreateUserThread\",\n                    ]:\n                        exec_options._enable", "                        \"NtQueueApcThread\",\n                        \"NtQueueApcThread-s\",\n                    ]:\n                        exec_options._enable", "C13.R3")
-M("C13", "get-args-unescaped-regression", "c2profile.py", "                        v = repr(v)[2:-1]\n                        block_steps[_build].append((k.lower(), v))\n                logger.debug(f\"block_steps: {block_steps}\")\n                if headers:\n                    http_get_client", "                        block_steps[_build].append((k.lower(), v.decode(\"latin-1\")))\n                logger.debug(f\"block_steps: {block_steps}\")\n                if headers:\n                    http_get_client", "C13.R4")
+M("C13", "get-args-unescaped-regression", "c2profile.py", "                        block_steps[_build].append((k.lower(), v))\n                logger.debug(f\"block_steps: {block_steps}\")\n                if headers:\n                    http_get_client", "                        block_steps[_build].append((k.lower(), v.decode(\"latin-1\")))\n                logger.debug(f\"block_steps: {block_steps}\")\n                if headers:\n                    http_get_client", "C13.R4")
 M("C13", "post-params-dropped", "c2profile.py", "                if params:\n                    http_post_client._pair(\"parameter\", params)\n", "", "C13.R5")
 M("C13", "stage-attached-unconditionally", "c2profile.py", "        profile.set_non_empty_config_block(\"stage\", stage)", "        profile.set_config_block(\"stage\", stage)", "C13.R6")
 M("C13", "non-empty-guard-removed", "c2profile.py", "        if config_block.tree.children:\n            self.set_config_block(option, config_block)", "        self.set_config_block(option, config_block)", "C13.R6")
-T("C13", "twin-pass-bytes", "c2profile.py", "                        # log.debug(f\"{k} -> {v}\")\n                        v = repr(v)[2:-1]\n                        block_steps[_build].append((k.lower(), v))", "                        # log.debug(f\"{k} -> {v}\")\n                        v = repr(v)[2:-1]\n                        block_steps[_build].append((k.lower(), v))  # escaped")
+T("C13", "twin-pass-bytes", "c2profile.py", "                        # log.debug(f\"{k} -> {v}\")\n                        block_steps[_build].append((k.lower(), v))", "                        # log.debug(f\"{k} -> {v}\")\n                        block_steps[_build].append((k.lower(), v))  # bytes: escaped by the builder")
 
 # =============================================================================== C09
 M("C09", "tell-header-4", "xordecode.py", "        return self.fh.tell() - (self.nonce_offset + 8)", "        return self.fh.tell() - (self.nonce_offset + 4)", "C09.R1")
